@@ -120,6 +120,26 @@ def texts(n):
     return [e[1] for e in flat(n) if e[0] == 'T']
 
 
+def texts_main(n):
+    """text nodes outside annotations (what _insert scans with main_text=True in the repaired code)"""
+    out, ad = [], 0
+    for e in flat(n):
+        if e[0] == 'O':
+            ad = ad + 1 if ad else (1 if e[1] == 'KAnnot' else 0)
+        elif e[0] == 'C':
+            if ad: ad -= 1
+        elif not ad:
+            out.append(e[1])
+    return out
+
+
+def own_text(n):
+    """python mirror of Tree.own_text (only to know on which string the regex oracle must be tabulated)"""
+    k, a, s, tx, ks, tl = n
+    head = ' ' * int(k[3:]) if k.startswith('KS ') else '\t' if k == 'KTab' else '\n' if k == 'KLb' else (tx or '')
+    return head + ''.join(('' if c[0] in ('KNote', 'KAnnot') else own_text(c)) + (c[5] or '') for c in ks)
+
+
 def raw(n):
     return ''.join(texts(n))
 
@@ -145,10 +165,11 @@ def n_elements(n):
     return sum(1 for e in flat(n) if e[0] == 'O')
 
 
-def spans_oracle(rx, n):
-    """match spans per text node — independent of odfdo: re.finditer over the abstraction's text nodes"""
+def spans_oracle(rx, n, main=False):
+    """match spans per text node — independent of odfdo: re.finditer over the abstraction's text nodes
+    (main: only the text nodes outside annotations)"""
     pat = re.compile(rx)
-    return [[m.span() for m in pat.finditer(t)] for t in texts(n)]
+    return [[m.span() for m in pat.finditer(t)] for t in (texts_main(n) if main else texts(n))]
 
 
 def coq_spans(sp):
